@@ -285,8 +285,9 @@ macro_rules! impl_log2_bounds_for_float {
                 } else {
                     match self.decode() {
                         Ok((man, exp)) => {
+                            // the sums are rounded to nearest: widen them by one ulp on each side
                             let (est_lb, est_ub) = man.log2_bounds();
-                            (est_lb + exp as f32, est_ub + exp as f32)
+                            (next_down(est_lb + exp as f32), next_up(est_ub + exp as f32))
                         },
                         Err(Nan) => panic!("calling log2 on nans is forbidden!"),
                         Err(Infinite) => (f32::INFINITY, f32::INFINITY),
